@@ -1,7 +1,15 @@
 import StunVerif.Props.C10
+import StunVerif.Props.SrcFnIter
 #print axioms StunVerif.C10.iter_eq_exposed
 #print axioms StunVerif.C10.fp_always_exposed
 #print axioms StunVerif.C10.prefix_exposed
 #print axioms StunVerif.C10.nothing_else
 #print axioms StunVerif.C10.all_exposed_without_integrity
 #print axioms StunVerif.C10.suffix_independent
+#print axioms StunVerif.SrcFnIter.drop_drop_len
+#print axioms StunVerif.SrcFnIter.iterGo_succ_ok
+#print axioms StunVerif.SrcFnIter.iterGo_succ_err
+#print axioms StunVerif.SrcFnIter.next_spec
+#print axioms StunVerif.SrcFnIter.collect_eq
+#print axioms StunVerif.SrcFnIter.src_iter
+#print axioms StunVerif.SrcFnIter.src_iter_more_fuel
